@@ -370,14 +370,14 @@ def run_use_case(ctx, case, ts=None):
                     t1 = base.prior_store.get(n)
                     if t1 is None or t1.shape != t0.shape or not np.array_equal(t0, t1, equal_nan=True):
                         if t1 is None or t1.shape != t0.shape:
-                            return "the table for n=%d disappeared or changed shape" % n, n
+                            return "the table for n=%d disappeared or changed shape" % n, int(n)
                         k, col = [int(x[0]) for x in np.where(~((t0 == t1) | (np.isnan(t0) & np.isnan(t1))))]
                         return ("prior_store[%d][%d] column %s was %r, is now %r" % (
-                            n, k, P.PriorParams._fields[col], float(t0[k, col]), float(t1[k, col]))), n
+                            n, k, P.PriorParams._fields[col], float(t0[k, col]), float(t1[k, col]))), int(n)
                 if not np.array_equal(snap_params, mp.prior_params, equal_nan=True):
-                    return "MixturePrior.prior_params changed", max(snap)
+                    return "MixturePrior.prior_params changed", int(max(snap))
                 if snap_lookup is not None and not np.array_equal(snap_lookup, base.approx_priors):
-                    return "the in-memory lookup table approx_priors changed", max(snap)
+                    return "the in-memory lookup table approx_priors changed", int(max(snap))
                 return None
 
             for name, arg in case["calls"]:
@@ -429,6 +429,7 @@ def run_use_case(ctx, case, ts=None):
                     return False
         # (b) the tables, after use, against the exact references
         for n, t in base.prior_store.items():
+            n = int(n)          # totals coming from np.unique are numpy integers
             rows = [[float(x) for x in r] for r in t]
             if not approx:
                 if not oracle_n(ctx, n, None, {distr: rows}):
